@@ -32,6 +32,7 @@ def dispatch (line : String) : String :=
     | "enc" => cmdEnc args
     | "dec" => cmdDec args
     | "build" => cmdBuild args
+    | "errconv" => cmdErrconv args
     | "comp" => cmdComp args
     | "cdec" => cmdCdec args
     | "menc" => cmdMenc args
